@@ -237,7 +237,9 @@ def run(prop, tier, seed):
         "random_programs": count,
         "model_checking": mcs,
     }
-    level = "model_checking" if mcs else "exploration"
+    # C07 and C09 quantify over inputs of (nearly) pure functions: the model guides the
+    # exploration, but the claim is exploration level (DESIGN.md section 6)
+    level = "model_checking" if (mcs and prop not in ("C07", "C09")) else "exploration"
     if mcs:
         extra["states"] = sum(m["states"] for m in mcs)
         extra["transitions"] = sum(m["transitions"] for m in mcs)
